@@ -375,6 +375,36 @@ func (g *pkgGen) generate(pkgLevel bool) (src string, queries []query) {
 					}
 				}
 				t.fields = append(t.fields, f)
+				if f.embedded != "" && r.Intn(2) == 0 {
+					// shadowing: an own field named like an exported field of the struct just embedded - the own
+					// field's documentation is the answer for that name
+					var cands []string
+					for _, ef := range byNameSoFar(g.ts, f.embedded).fields {
+						if ef.listed && ef.embedded == "" {
+							for _, n := range ef.names {
+								taken := false
+								for _, of := range t.fields {
+									for _, on := range of.names {
+										if on == n {
+											taken = true
+										}
+									}
+								}
+								if !taken && n[0] >= 'A' && n[0] <= 'Z' {
+									cands = append(cands, n)
+								}
+							}
+						}
+					}
+					if len(cands) > 0 {
+						sf := field{names: []string{cands[r.Intn(len(cands))]}, typ: "string", listed: true}
+						sf.doc = genDoc(r, sf.names)
+						sf.doc.write(&b, "\t")
+						fmt.Fprintf(&b, "\t%s %s\n", sf.names[0], sf.typ)
+						hasExported = true
+						t.fields = append(t.fields, sf)
+					}
+				}
 			}
 			b.WriteString("}\n\n")
 			t.covered = t.exported && t.enabled && hasExported
@@ -477,6 +507,15 @@ func (g *pkgGen) generate(pkgLevel bool) (src string, queries []query) {
 		queries = append(queries, query{Type: t.name, Expr: expr, Names: []string{"NoSuchFieldAnywhere"}, Want: nil, OK: false, Kind: "unknown-name", Hostile: true})
 	}
 	return b.String(), queries
+}
+
+func byNameSoFar(ts []*typ, name string) *typ {
+	for _, t := range ts {
+		if t.name == name {
+			return t
+		}
+	}
+	return &typ{}
 }
 
 func nonNil(s []string) []string {
